@@ -48,7 +48,11 @@ def gen_cases(rng, tier):
     for is_fd in (True, False):
         cases.append({"created": [{"arg": "notes.txt", "content": {"pat": "41", "len": 600}}, {"arg": "other.dat", "content": {"pat": "42", "len": 3000}}], "is_fd": is_fd, "verbose": False,
                       "batch": [{"arg": "notes.txt", "content": {"pat": "43", "len": 4000}}, {"arg": "fresh.dat", "content": {"pat": "44", "len": 700}}]})
-    return cases, {"random": n, "fixed": 2}
+    # a side whose 112 entries are all live but which still has free blocks: an added multi-block file goes to the next side and leaves this one untouched, table included
+    full = [{"arg": "q%03d.d" % k, "content": {"hex": "51"}} for k in range(112)]
+    for is_fd in (True, False):
+        cases.append({"created": full, "is_fd": is_fd, "verbose": False, "batch": [{"arg": "big.bin", "content": {"rand": 71, "len": 5000}}, {"arg": "one.txt", "content": {"hex": "31"}}]})
+    return cases, {"random": n, "fixed": 4}
 
 
 def base_image(case, ctx, cd):
@@ -122,6 +126,18 @@ def run_case(case, ctx):
             else:
                 sides_a = fsck(ctx, is_fd, raw1)
                 bad = frame_check(is_fd, raw0, raw1, sides_b, sides_a)
+                if bad is None:
+                    # a table byte of a formerly free block may change only to describe an added file: no block is left in use without an owner
+                    for i, (sb, sa) in enumerate(zip(sides_b, sides_a)):
+                        if sb["files"] is None or sa["files"] is None:
+                            continue
+                        orphans = lambda sd: (160 - sd["free"] - sd["reserved"]) - len({b for f in sd["files"] for b in f["blocks"]})
+                        if orphans(sb) == 0 and orphans(sa) != 0:
+                            bad = {"blocks marked used on a side although they belong to no file": [i, orphans(sa)]}
+                            break
+                        if sb["strict"] and not sa["strict"]:
+                            bad = {"a side that passed the strict check no longer does": i}
+                            break
                 if bad is None and not case["batch"]:
                     same = raw1 == raw0 if (is_fd or sd_padding_ok(raw0)) else payloads(False, raw1) == payloads(False, raw0)
                     if not same:
